@@ -161,7 +161,11 @@ def model_run(machine, stmts, scope, faults, persistent):
 def setup_store(sim, case):
     """materialise the module files of a case in the virtual FS"""
     for vpath, entry in sorted(case.get("files", {}).items()):
-        if "raw" in entry:
+        if "latin1" in entry:
+            # bytes that are not valid UTF-8 (a file saved in another
+            # encoding)
+            sim.w.put_file(vpath, entry["latin1"].encode("latin-1"))
+        elif "raw" in entry:
             sim.w.put_file(vpath, entry["raw"])
         elif "ir" in entry:
             sim.w.put_file(vpath, lang.render_module(entry["ir"]))
@@ -179,6 +183,8 @@ def make_model_store(case):
                 files[vpath] = {"raw": True}
             else:
                 files[vpath] = {"ir": entry["ir"]}
+        elif "latin1" in entry:
+            files[vpath] = {"undecodable": True}
         else:
             files[vpath] = {"raw": True}
     return lang.ModelStore(files, MOD_HOME, st.get("paths", []),
